@@ -345,6 +345,15 @@ def r6(rr, repo):
         # withdrawn at least whenever the client that left was a synchronized one (a listener never gated the send)
         withdrawn = any(all((not pol and 'ephemeral' in U(t)) or (pol and 'not' in U(t) and 'ephemeral' in U(t)) for t, pol in q.guards_of(x, stop=st_ if isinstance(st_, ast.If) else za.S_poll) if x is not None and not any(y is d for y in ast.walk(t))) for x in wd) if wd else False
         recomputed = any(isinstance(x, ast.Assign) and U(x.targets[0]) == 'do_send' and 'outs_required' in U(x.value) for f_ in follow for x in ast.walk(f_))
+        # ... and a REQUIRED output's CLOSE withdraws it however that output is attached (a required output may be a '?' branch of a tee that is rejoined): the exemption of listeners
+        # has an 'or <it is a required output>' beside it, or there is no exemption at all
+        def covers_required(x):
+            gs = [t for t, pol in q.guards_of(x, stop=st_ if isinstance(st_, ast.If) else za.S_poll) if not any(y is d for y in ast.walk(t))]
+            eph = [t for t in gs if 'ephemeral' in U(t)]
+            return not eph or all(isinstance(t, ast.BoolOp) and isinstance(t.op, ast.Or) and any('outs_required' in U(v) for v in t.values) for t in eph)
+        if wd and not recomputed:
+            rr.ob("the CLOSE of a required output withdraws the permission also when that output is attached with '?'", any(covers_required(x) for x in wd), za.mod, wd[0],
+                  witness=' && '.join(U(t)[:80] for t, pol in q.guards_of(wd[0], stop=za.S_poll))[-220:], key='close-withdraws-permission-required')
         rr.ob('removing a client on CLOSE withdraws (or re-evaluates) the permission to send that was decided while it was there', withdrawn or recomputed, za.mod, d,
               witness='do_send = False after the removal' if withdrawn else 're-evaluated' if recomputed else 'the CLOSE path leaves do_send as the previous request left it', key='close-withdraws-permission')
     # "connected" excludes a client this very round is about to time out: the set the required ids are looked up in is built from clients whose last request is
